@@ -67,7 +67,9 @@ where
         let mut remaining_to_read = self.size;
 
         while remaining_to_read > 0 {
-            let mut buf = vec![0; remaining_to_read];
+            // `remaining_to_read` is whatever length the client declared: discard through a
+            // buffer of bounded size instead of allocating that much
+            let mut buf = vec![0; remaining_to_read.min(8192)];
 
             match self.reader.read(&mut buf) {
                 Err(e) => {
